@@ -66,13 +66,17 @@ CLAIMED = {
         ref="DESIGN.md §4 C05"),
     "C17": dict(
         technique="deterministic simulation of operation histories (nested set/exit, part-way failing sets, gets, "
-                  "helpers) against a reference config model with snapshots",
+                  "helpers) against a reference config model with snapshots; E2 slice: concurrent set() calls "
+                  "under a simulated config_lock judged against all serial orders",
         text="History-based exploration over nested config.set contexts on private and global config dicts: "
              "exit restores the snapshot taken at the matching enter, a set call that raises leaves the config "
              "equal to the snapshot taken just before (atomicity under a fault inside the call), get under the "
              "other spelling agrees with a reference model, update/merge/collect_env/serialize follow the model.",
-        note="Single-threaded histories; the failing-set fault is a dotted path running through a non-mapping "
-             "placed first/middle/last in the call; asynchronous exceptions are out of the statement.",
+        note="Context enter/exit histories are single-threaded; the E2 slice (1 run in 5) lets 2-3 threads issue "
+             "persistent set() calls, some failing part-way, with config_lock simulated and dask/config.py "
+             "pre-empted at lines, and asks for serializability. The failing-set fault is a dotted path running "
+             "through a non-mapping placed first/middle/last in the call; asynchronous exceptions are out of "
+             "the statement.",
         ref="DESIGN.md §4 C17"),
     "C52": dict(
         technique="deterministic simulation (E1) with simulated clock and tape-driven cache eviction; profiler "
